@@ -401,6 +401,10 @@ pub fn exact(args: &[String]) {
     if arg_val(args, "--family").as_deref() == Some("bare") {
         FAMILY.with(|f| f.set(1));
     }
+    if arg_val(args, "--family").as_deref() == Some("storm") {
+        // pawn storms: double steps, live and expired en-passant rights, along games with one reused context
+        FAMILY.with(|f| f.set(4));
+    }
     if arg_val(args, "--family").as_deref() == Some("kxk") {
         FAMILY.with(|f| f.set(3));
     }
